@@ -403,10 +403,15 @@ def check(ctx):
     for _ in range(150 if ctx.thorough else 30):
         names = ctx.rng.sample(toks, ctx.rng.randint(1, 3))
         vec_cases.append(({f"t{i}": p for i, p in enumerate(names)}, "".join(ctx.rng.choice("ab") for _ in range(ctx.rng.randint(0, 7)))))
-    vec_impl = []
+    vec_impl, vec_done = [], []
     for spec, text in vec_cases:
         exprs = [attempt(R.parse, p) for p in spec.values()]
         names = list(spec.keys())
+        bad = [p for p, x in zip(spec.values(), exprs) if x[0] != "ok"]
+        if bad:
+            ctx.fail("parse:rejects-supported-syntax", f"parse({bad[0]!r}) raised {exprs[list(spec.values()).index(bad[0])][1]}", bad[0])
+            continue
+        vec_done.append((spec, text))
         with contextlib.redirect_stdout(io.StringIO()):
             sc = attempt(R.make_scanner, spec)
         if sc[0] != "ok":
@@ -513,7 +518,7 @@ def check(ctx):
                 ctx.fail(sig, f"scan(compile({key!r}), {s!r}) = {tk} {end}, maximal munch gives {want[0]} {want[1]}", {"regex": key, "text": s})
                 break
     # vector scanners: correspondence
-    for (spec, text), i, m in zip(vec_cases, vec_impl, out[k:]):
+    for (spec, text), i, m in zip(vec_done, vec_impl, out[k:]):
         if i != m:
             ctx.disagree("scanvec", {"tokens": spec, "text": text}, i, m)
     ctx.sample({"regex": "a(b|c)d", "impl_parse": expect[1], "model_parse": out[1]})
